@@ -565,4 +565,140 @@ theorem Removes_iff_DeletedOk (e : Env) (t : Tbl) (op : Op) (k : Str) :
           exact eq_comm
         · simp [ha, hb]
 
+/-! ## FilePath: separators -/
+
+/-- replace every back-slash by a forward slash. -/
+def toSlash (c : Char) : Char := if c == '\\' then '/' else c
+
+theorem isSep_toSlash (c : Char) : isSep (toSlash c) = isSep c := by
+  unfold toSlash isSep
+  by_cases h : c = '\\'
+  · subst h; decide
+  · have : (c == '\\') = false := by simpa using h
+    simp [this]
+
+theorem toSlash_of_not_sep (c : Char) (h : isSep c = false) : toSlash c = c := by
+  unfold toSlash
+  have : (c == '\\') = false := by
+    unfold isSep at h
+    simp at h
+    simpa using h.2
+  simp [this]
+
+theorem reduceGo_map_toSlash (s : Str) (dirs : List Str) (cur : Str) :
+    reduceGo (s.map toSlash) dirs cur = reduceGo s dirs cur := by
+  induction s generalizing dirs cur with
+  | nil => rfl
+  | cons c cs ih =>
+    simp only [List.map_cons, reduceGo, isSep_toSlash]
+    cases h : isSep c
+    · simp [ih, toSlash_of_not_sep c h]
+    · simp [ih]
+
+theorem find2_cons_cons (a b x y : Char) (r : Str) :
+    find2 a b (x :: y :: r) = if (x == a && y == b) then some 0 else (find2 a b (y :: r)).map (· + 1) := by
+  simp [find2]
+
+theorem find2_cons_cons_none (a b x y : Char) (r : Str) :
+    find2 a b (x :: y :: r) = none ↔ ¬ (x = a ∧ y = b) ∧ find2 a b (y :: r) = none := by
+  rw [find2_cons_cons]
+  by_cases h : x = a ∧ y = b
+  · obtain ⟨rfl, rfl⟩ := h; simp
+  · have : (x == a && y == b) = false := by
+      simp only [Bool.and_eq_false_iff, beq_eq_false_iff_ne, ne_eq]
+      by_cases hx : x = a
+      · exact Or.inr (fun hy => h ⟨hx, hy⟩)
+      · exact Or.inl hx
+    simp [this, h]
+
+theorem toSlash_eq_colon (x : Char) : toSlash x = ':' ↔ x = ':' := by
+  unfold toSlash
+  by_cases h : x = '\\'
+  · subst h; decide
+  · have : (x == '\\') = false := by simpa using h
+    simp [this]
+
+theorem toSlash_eq_slash (x : Char) : toSlash x = '/' ↔ x = '/' ∨ x = '\\' := by
+  unfold toSlash
+  by_cases h : x = '\\'
+  · subst h; decide
+  · have : (x == '\\') = false := by simpa using h
+    simp [this, h]
+
+theorem toSlash_ne_bslash (x : Char) : toSlash x ≠ '\\' := by
+  unfold toSlash
+  by_cases h : x = '\\'
+  · subst h; decide
+  · have : (x == '\\') = false := by simpa using h
+    simp [this, h]
+
+theorem find2_slash_map (s : Str) (h1 : find2 ':' '/' s = none) (h2 : find2 ':' '\\' s = none) :
+    find2 ':' '/' (s.map toSlash) = none := by
+  induction s with
+  | nil => rfl
+  | cons x t ih =>
+    cases t with
+    | nil => rfl
+    | cons y r =>
+      rw [find2_cons_cons_none] at h1 h2
+      simp only [List.map_cons] at ih ⊢
+      rw [find2_cons_cons_none]
+      refine ⟨?_, ih h1.2 h2.2⟩
+      rintro ⟨hx, hy⟩
+      rw [toSlash_eq_colon] at hx
+      rw [toSlash_eq_slash] at hy
+      cases hy with
+      | inl hy => exact h1.1 ⟨hx, hy⟩
+      | inr hy => exact h2.1 ⟨hx, hy⟩
+
+theorem find2_bslash_map (a : Char) (s : Str) : find2 a '\\' (s.map toSlash) = none := by
+  induction s with
+  | nil => rfl
+  | cons x t ih =>
+    cases t with
+    | nil => rfl
+    | cons y r =>
+      simp only [List.map_cons] at ih ⊢
+      rw [find2_cons_cons_none]
+      exact ⟨fun h => toSlash_ne_bslash y h.2, ih⟩
+
+theorem absPrefix_eq_nil_iff (s : Str) :
+    absPrefix s = [] ↔ s = [] ∨ ((∃ c t, s = c :: t ∧ isSep c = false) ∧ find2 ':' '/' s = none ∧ find2 ':' '\\' s = none) := by
+  cases s with
+  | nil => simp [absPrefix]
+  | cons c t =>
+    simp only [absPrefix, reduceCtorEq, false_or]
+    by_cases hc : (c == '\\' || c == '/') = true
+    · have hs : isSep c = true := by
+        unfold isSep; simp only [Bool.or_eq_true, beq_iff_eq] at hc ⊢; exact hc.symm
+      simp [hc, hs]
+    · have hs : isSep c = false := by
+        unfold isSep
+        simp only [Bool.or_eq_true, beq_iff_eq, not_or] at hc
+        simp [hc.1, hc.2]
+      simp only [hc]
+      cases h1 : find2 ':' '/' (c :: t) with
+      | some p => simp
+      | none =>
+        cases h2 : find2 ':' '\\' (c :: t) with
+        | some p => simp
+        | none => simp [hs]
+
+theorem absPrefix_map_toSlash (s : Str) (h : absPrefix s = []) : absPrefix (s.map toSlash) = [] := by
+  rw [absPrefix_eq_nil_iff] at h ⊢
+  cases h with
+  | inl h => subst h; exact Or.inl rfl
+  | inr h =>
+    obtain ⟨⟨c, t, rfl, hc⟩, h1, h2⟩ := h
+    refine Or.inr ⟨⟨toSlash c, t.map toSlash, by simp, by rw [isSep_toSlash]; exact hc⟩, ?_, ?_⟩
+    · exact find2_slash_map _ h1 h2
+    · exact find2_bslash_map _ _
+
+/-- **Separators do not matter** for names without an absolute prefix: replacing every back-slash by
+    a forward slash does not change the normalised path. -/
+theorem reduce_map_toSlash (s : Str) (h : absPrefix s = []) : reduce (s.map toSlash) = reduce s := by
+  unfold reduce
+  simp only [absPrefix_map_toSlash s h, h, List.length_nil, List.drop_zero, List.nil_append]
+  rw [reduceGo_map_toSlash]
+
 end MjProof.Vfs
